@@ -201,6 +201,7 @@ int do_op (string line) {
   case "srange": v[a][b..c] = w[4]; break;       // unlink_string_svalue + copy_lvalue_range
   case "rest": catch (restore_variable (w[1])); break;      // value builder on a (possibly damaged) save text
   case "resto": "/c06/robj"->rest (w[1]); break;            // the same through restore_object() of a file
+  case "inpr": obs[a]->doinput2 (v[b], v[c]); break;
   case "inp": obs[a]->doinput (v[b], v[c], (b + c) & 1); break;     // odd slot sum: get_char() (same bookkeeping, own code)
   case "err": boom (v[a], v[b], 3); break;
   case "flush":
